@@ -33,6 +33,15 @@ class Unit:
         with open(os.path.join(self.dir, "contracts.toml"), "rb") as f:
             self.cfg = tomllib.load(f)
         self.preamble = open(os.path.join(self.dir, "preamble.rs")).read()
+        # `include`: other units whose preamble, constants, mirror checks, rules and contracted functions
+        # are emitted in front of this unit's (their obligations are re-discharged here, not assumed)
+        for inc in reversed(self.cfg.get("include", [])):
+            d = os.path.join(VERIF, "units", inc)
+            with open(os.path.join(d, "contracts.toml"), "rb") as f:
+                ic = tomllib.load(f)
+            self.preamble = open(os.path.join(d, "preamble.rs")).read() + "\n" + self.preamble
+            for key in ("struct_check", "const", "rule", "fn"):
+                self.cfg[key] = ic.get(key, []) + self.cfg.get(key, [])
         self.log = []          # rule instances
         self.items = []        # dicts: id, file, lines, sha, text (rewritten), owner
         self.context = {}      # struct / const hashes
@@ -238,6 +247,7 @@ class Unit:
         if canary:
             twins = [self.build_fn(f, canary=True) for f in self.cfg.get("fn", []) if f.get("canary", True)]
         self.items = recs
+        lemma_twins = self.lemma_twins() if canary else ""
         out = []
         out.append("// GENERATED by /verif/vf/gen.py — unit `%s`%s. Do not edit; re-generated on every run from %s" % (self.name, " (canary twins)" if canary else "", self.repo))
         out.append(self.cfg.get("uses", "use vstd::prelude::*;"))
@@ -263,9 +273,33 @@ class Unit:
             if ow:
                 out.append("}")
         out.append(self.cfg.get("postamble", ""))
+        if canary:
+            out.append(lemma_twins)
         out.append("} // verus!")
         out.append("fn main() {}")
         return "\n".join(out) + "\n"
+
+    def lemma_twins(self):
+        """vacuity guard for lemmas: every `proof fn` of the preamble gets a twin with `ensures false`
+        that must FAIL (a twin that verifies = contradictory requires)."""
+        out = []
+        pre = rlex.strip_comments(self.preamble)
+        for f in rlex.find_fns(pre):
+            head = pre[max(0, f.start - 40):f.start]
+            if not re.search(r"\bproof\s*$", head) or f.owner:
+                continue
+            if re.search(r"external_body", pre[max(0, f.start - 120):f.start]):
+                continue
+            rest = pre[f.body_close + 1:f.body_close + 200].lstrip()
+            if rest.startswith(",") or rest.startswith("{"):
+                continue  # a `match {..}` inside the spec clause was taken for the body: no twin for this lemma
+            sig = pre[f.start:f.body_open]
+            sig = re.sub(r"^fn\s+" + re.escape(f.name) + r"\b", "fn canary_" + f.name, sig)
+            if not re.search(r"\brequires\b", sig):
+                continue  # nothing that could be contradictory
+            sig = self.canary_spec(sig)
+            out.append("pub proof " + sig + pre[f.body_open:f.body_close + 1])
+        return "\n".join(out)
 
     def hashes(self):
         h = {r["id"]: r["sha"] for r in self.items}
